@@ -11,7 +11,7 @@ LEVEL = "exploration"
 RULE = (
     "inputs = example corpus + generated family + one-step mutations + the ~Well version family (items whose "
     "value/description order depends on version and mnemonic, as 1.2 and as 2.0 sources); each input is read with "
-    "mnemonic_case upper and preserve; for every writer configuration cfg within k deviations of the default over "
+    "mnemonic_case upper, preserve and lower; for every writer configuration cfg within k deviations of the default over "
     "(version None/1.2/2.0, wrap None/True/False, len_numeric_field, spacer, lhs_spacer, data_width, mnemonics_header, "
     "data_section_header) at equal numeric precision: canon(read(write(x, cfg))) == canon(read(write(x, cfg0))) in "
     "numeric mode ignoring the VERS and WRAP items; non-trivial = a (input, case, cfg) triple whose output text "
@@ -37,13 +37,13 @@ _IN = {}
 
 def bounds(tier):
     return {"inputs": len(_inputs(tier)), "configurations": len(roundtrip.configs(2 if tier == "quick" else 3, True)),
-            "deviation_bound": 2 if tier == "quick" else 3, "read_cases": ["upper", "preserve"]}
+            "deviation_bound": 2 if tier == "quick" else 3, "read_cases": ["upper", "preserve", "lower"]}
 
 
 def points(tier):
     pts = []
     for i, (name, text) in enumerate(_inputs(tier)):
-        for case in ("upper", "preserve"):
+        for case in ("upper", "preserve", "lower"):
             pts.append({"tier": tier, "input": i, "name": name, "case": case})
     return pts
 
